@@ -125,3 +125,165 @@ def where(f: FuncInfo, n: ast.AST) -> str:
 
 def short(f: FuncInfo) -> str:
     return f.qual.replace("openapi_python_client.", "")
+
+
+# ---- name-independent access to local variables -----------------------------------------------------------------------
+# Rules must not depend on how a local variable is spelled (alpha-renaming preserves behaviour).  Locals are therefore found
+# by their *role*: what they are bound from (the iterable of their loop, the call that produces them, ...).  Parameters,
+# attributes, functions and classes are part of the repository's interface and may be named.
+
+class Locals:
+    def __init__(self, fn: ast.AST) -> None:
+        self.fn = fn
+        self.defs: dict[str, list[tuple[str, ast.AST, ast.AST | None]]] = {}
+        for n in ast.walk(fn):
+            if isinstance(n, ast.Assign):
+                for t in n.targets:
+                    self._bind(t, "assign", n, n.value)
+            elif isinstance(n, ast.AnnAssign) and n.value is not None:
+                self._bind(n.target, "assign", n, n.value)
+            elif isinstance(n, ast.AugAssign):
+                self._bind(n.target, "aug", n, n.value)
+            elif isinstance(n, (ast.For, ast.AsyncFor)):
+                self._bind(n.target, "for", n, n.iter)
+            elif isinstance(n, ast.comprehension):
+                self._bind(n.target, "for", n, n.iter)
+            elif isinstance(n, ast.NamedExpr):
+                self._bind(n.target, "assign", n, n.value)
+            elif isinstance(n, (ast.With, ast.AsyncWith)):
+                for item in n.items:
+                    if item.optional_vars is not None:
+                        self._bind(item.optional_vars, "with", n, item.context_expr)
+            elif isinstance(n, ast.ExceptHandler) and n.name:
+                self.defs.setdefault(n.name, []).append(("except", n, n.type))
+
+    def _bind(self, t: ast.AST, kind: str, st: ast.AST, value: ast.AST | None) -> None:
+        if isinstance(t, ast.Name):
+            self.defs.setdefault(t.id, []).append((kind, st, value))
+        elif isinstance(t, (ast.Tuple, ast.List)):
+            for i, e in enumerate(t.elts):
+                self._bind(e, f"{kind}[{i}]", st, value)
+        elif isinstance(t, ast.Starred):
+            self._bind(t.value, kind, st, value)
+
+    def bound_from(self, pred: Callable[[str], bool], kind: str = "") -> list[str]:
+        """local names with a binding of the given kind prefix whose value expression (unparsed) satisfies pred"""
+        out = []
+        for name, ds in self.defs.items():
+            if any(k.startswith(kind) and v is not None and pred(norm(v)) for k, _, v in ds):
+                out.append(name)
+        return out
+
+    def one(self, pred: Callable[[str], bool], kind: str = "") -> str | None:
+        got = self.bound_from(pred, kind)
+        return got[0] if len(got) == 1 else None
+
+    def values_of(self, name: str) -> list[ast.AST]:
+        return [v for _, _, v in self.defs.get(name, []) if v is not None]
+
+
+def receivers(fn: ast.AST, attr: str, arg_pred: Callable[[str], bool] | None = None) -> list[tuple[str, ast.Call]]:
+    """(receiver text, call) of every method call `<recv>.<attr>(...)` whose unparsed argument list satisfies arg_pred"""
+    out = []
+    for c in calls_in(fn):
+        if isinstance(c.func, ast.Attribute) and c.func.attr == attr:
+            args = ", ".join([norm(a) for a in c.args] + [f"{k.arg}={norm(k.value)}" for k in c.keywords])
+            if arg_pred is None or arg_pred(args):
+                out.append((norm(c.func.value), c))
+    return out
+
+
+def stmt_of(fn: ast.AST, node: ast.AST) -> ast.stmt | None:
+    """innermost statement of fn that contains node"""
+    best = None
+    for st in ast.walk(fn):
+        if isinstance(st, ast.stmt):
+            for sub in walk_own(st):
+                if sub is node:
+                    best = st
+    return best
+
+
+def names_in(e: ast.AST | None) -> set[str]:
+    return {n.id for n in ast.walk(e) if isinstance(n, ast.Name)} if e is not None else set()
+
+
+def local_names(fn: ast.AST) -> set[str]:
+    """names bound inside fn (incl. comprehension / loop targets, nested functions' locals) that are not parameters of fn"""
+    a = fn.args if isinstance(fn, (ast.FunctionDef, ast.AsyncFunctionDef, ast.Lambda)) else None
+    params = set()
+    if a is not None:
+        params = {x.arg for x in [*a.posonlyargs, *a.args, *a.kwonlyargs]} | ({a.vararg.arg} if a.vararg else set()) | ({a.kwarg.arg} if a.kwarg else set())
+    out = {n.id for n in ast.walk(fn) if isinstance(n, ast.Name) and isinstance(n.ctx, ast.Store)}
+    out |= {h.name for h in ast.walk(fn) if isinstance(h, ast.ExceptHandler) and h.name}
+    return out - params
+
+
+class _Anon(ast.NodeTransformer):
+    def __init__(self, names: set[str]) -> None:
+        self.names = names
+
+    def visit_Name(self, n: ast.Name) -> ast.AST:
+        return ast.copy_location(ast.Name(id="_", ctx=n.ctx), n) if n.id in self.names else n
+
+
+def anon(e: ast.AST, names: set[str]) -> str:
+    """unparsed expression with the given (local) names replaced by `_`: construct keys must survive alpha-renaming"""
+    import copy
+
+    return ast.unparse(_Anon(names).visit(copy.deepcopy(e)))
+
+
+_ROLE_CACHE: dict[int, tuple[ast.AST, dict[str, str]]] = {}
+
+
+def _role_of(name: str, lc: Locals, lnames: set[str]) -> str:
+    descs = set()
+    for kind, _, v in lc.defs.get(name, []):
+        idx = kind[kind.index("["):] if "[" in kind else ""
+        if kind.startswith("for") and v is not None:
+            descs.add(f"<each {anon(v, lnames)}{idx}>")
+        elif kind.startswith(("assign", "with")) and isinstance(v, ast.Call):
+            descs.add(f"<={call_name(v).rsplit('.', 1)[-1]}(){idx}>")
+        else:
+            descs.add("_")
+    return next(iter(descs)) if len(descs) == 1 else "_"
+
+
+def role_anon(e: ast.AST, fn: ast.AST) -> str:
+    """unparsed expression in which every local of fn is replaced by its role: `<each ITER>` for a loop variable, `<=f()>` for a
+    local only ever bound to the result of f, `_` otherwise.  Keys built this way identify a construct without depending on how
+    locals are spelled."""
+    import copy
+
+    if id(fn) not in _ROLE_CACHE:
+        lnames = local_names(fn)
+        lc = Locals(fn)
+        _ROLE_CACHE[id(fn)] = (fn, {n: _role_of(n, lc, lnames) for n in lnames})
+    roles = _ROLE_CACHE[id(fn)][1]
+    if not (names_in(e) & set(roles)):
+        return norm(e)
+
+    class R(ast.NodeTransformer):
+        def visit_Name(self, n: ast.Name) -> ast.AST:
+            return ast.copy_location(ast.Name(id=roles[n.id], ctx=n.ctx), n) if n.id in roles else n
+
+    return ast.unparse(R().visit(copy.deepcopy(e)))
+
+
+def resolved_text(e: ast.AST, fn: ast.AST, depth: int = 3) -> str:
+    """the expression's text followed by the texts of everything its local names are bound from (transitively, `depth` levels):
+    lets a rule recognise `for x in to_process` as a loop over `schemas.models_to_process` however the local is spelled"""
+    lc = Locals(fn)
+    seen: set[str] = set()
+    out = [norm(e)]
+    frontier = names_in(e)
+    for _ in range(depth):
+        nxt: set[str] = set()
+        for n in sorted(frontier - seen):
+            seen.add(n)
+            for v in lc.values_of(n):
+                out.append(norm(v))
+                nxt |= names_in(v)
+        frontier = nxt
+    return " <- ".join(out)
